@@ -343,6 +343,44 @@ PROPS = {
     },
 }
 
+# ---- progress premises shared by every property that says something happens for every action --
+# All of them were written for one property and turned out, round after round, to be what a
+# change written against *another* property broke: if the reducer thread panics, blocks on
+# itself, leaves its loop early or skips a pass, every per-action guarantee goes with it.  They
+# are therefore part of the pack of every such property (added here, once, instead of per pack).
+PROGRESS_PROPS = ("C01", "C02", "C03", "C04", "C05", "C06", "C07", "C09", "C10", "C11", "C12", "C14", "C15", "C16", "C18")
+PROGRESS_RULES = [
+    (X.pn1_no_panic_source_on_the_reducer_thread, None, None),
+    (E.rp1_reducer_thread_never_unwraps_a_shutdown_slot, None, None),
+    (E.e3_never_inline, r"payload-called-on-worker|floor", None),
+    (E.e6_reducer_never_enqueues, None, None),
+    (T.st3_loop_exits, r"exits-only-on-exit-or-disconnect|none-means-disconnected|count:|floor", None),
+    (DL.l1_lock_order, r"re-entrant-lock|lock-order-cycle", "L1"),
+    (DL.l2_wait_for, r"consumer-needs:.*held=StoreImpl\.sender-slot|floor", "L2"),
+    (P.pi1_one_pass_per_action, r"every-pass-has|receive events", None),
+    (S.cb1_callbacks_hold_no_reentrant_lock, None, None),
+]
+
+
+def _ensure(pid, fn, only=None, name=None):
+    rules = PROPS[pid]["rules"]
+    for i, (nm, f, o, d) in enumerate(rules):
+        if f is fn:
+            if o is None:
+                pass                                   # the whole rule is in the pack already
+            elif only is None:
+                rules[i] = (nm, f, None, d)            # widen to the whole rule
+            elif only not in o:
+                rules[i] = (nm, f, o + "|" + only, d)
+            return
+    rules.append(r(fn, only=only, name=name))
+
+
+for _pid in PROGRESS_PROPS:
+    for _fn, _only, _name in PROGRESS_RULES:
+        _ensure(_pid, _fn, _only, _name)
+    PROPS[_pid]["explanation"] += " Progress premises shared by every per-action property: the reducer thread has no panic source of its own (PN1, RP1), runs no effect payload (E3), never enqueues into or blocks on its own queue (E6, L2), takes its locks in one order (L1, CB1), leaves its loop only on Exit / disconnection (ST3) and makes a whole pass for every received action (PI1)."
+
 for pid, spec in PROPS.items():
     spec.setdefault("controls", [])
     spec.setdefault("thorough", [])
